@@ -1032,6 +1032,23 @@ func (c *specCtx) call(n *ast.CallExpr) (sv, error) {
 			return sv{}, err
 		}
 		return c.mk(types.Typ[types.UnsafePointer], "(i-tag "+v.S+")"), nil
+	case "time_unix", "time_nsec", "time_iszero":
+		// observers of a time.Time value (see the library model of Unix/Nanosecond/IsZero)
+		v, err := c.eval(args[0])
+		if err != nil {
+			return sv{}, err
+		}
+		if v.T == nil || types.TypeString(v.T, nil) != "time.Time" {
+			return sv{}, c.errf("%s: not a time.Time", id.Name)
+		}
+		e.timeFuns(v.T)
+		switch id.Name {
+		case "time_unix":
+			return c.mk(types.Typ[types.Int64], fmt.Sprintf("(time.unix %s)", v.S)), nil
+		case "time_nsec":
+			return c.mk(tInt, fmt.Sprintf("(time.nsec %s)", v.S)), nil
+		}
+		return c.mk(tBool, fmt.Sprintf("(time.iszero %s)", v.S)), nil
 	case "nth":
 		// nth(callee, k): the first result of the k-th (1-based) counted call of callee made by the
 		// function under verification (ghost array filled by count_calls)
